@@ -11,17 +11,21 @@ def H(name,a,d,alpha,sh,shs,tier,prefix=0,events=0):
         note+=", events restricted to {%s}"%",".join(str(i) for i in range(10) if events>>i&1)
     if prefix:
         env["prefix"]=str(prefix); note+=", after prefix %d (%s)"%(prefix,{1:"peer 1 connected, one bundle submitted and transmitted",2:"both peers connected, one bundle submitted and transmitted",3:"two bundles of one source and creation time waiting in the store"}[prefix])
-    return {"name":name,"pkg":PKG,"crc":"uf","expect_reach":["end"],"env":env,"budget":400000000,"note":note,"tiers":[tier]}
+    h={"name":name,"pkg":PKG,"crc":"uf","expect_reach":["end"],"env":env,"budget":400000000,"note":note}
+    if tier!="both": h["tiers"]=[tier]
+    return h
 c=json.load(open('/verif/checks/C05.json'))
 hs=[]
+# both tiers: depth 3 over all ten events for every algorithm; thorough adds depth 4 for epidemic and (without the
+# destination peer) for the other algorithms - a full depth-4 sweep of all six algorithms took more than 90 minutes
 for a in range(5):
-    for sh in range(3): hs.append(H("H05_History",a,3,2,sh,3,"quick"))
-for a in range(5):
-    for sh in range(10): hs.append(H("H05_History",a,4,2,sh,10,"thorough"))
-hs.append(H("H05_History",0,2,1,0,1,"quick",prefix=3))
-for sh in range(2): hs.append(H("H05_History",5,3,1,sh,2,"quick"))
-for sh in range(10): hs.append(H("H05_History",5,4,2,sh,10,"thorough"))
-for sh in range(5): hs.append(H("H05_History",0,4,2,sh,5,"thorough",prefix=3))
+    for sh in range(3): hs.append(H("H05_History",a,3,2,sh,3,"both"))
+hs.append(H("H05_History",0,2,1,0,1,"both",prefix=3))
+for sh in range(2): hs.append(H("H05_History",5,3,1,sh,2,"both"))
+for sh in range(10): hs.append(H("H05_History",0,4,2,sh,10,"thorough"))
+for a in (1,2,3,4):
+    for sh in range(3): hs.append(H("H05_History",a,4,1,sh,3,"thorough",events=sum(1<<i for i in (0,1,2,3,4,5,7,8))))
+for sh in range(4): hs.append(H("H05_History",0,3,1,sh,4,"thorough",prefix=3))
 hs.append({"name":"H05_SameMs","pkg":PKG,"crc":"uf","expect_reach":["end"]})
 hs.append({"name":"H05_ConcurrentFailures","pkg":PKG,"crc":"real","expect_reach":["end"],"yield_on_store":True,"note":"two failure reports for one bundle interleaved at every store call"})
 c['harnesses']=hs
@@ -30,11 +34,9 @@ c=json.load(open('/verif/checks/C13.json'))
 hs=[h for h in c['harnesses'] if h['name']!='H13_History']
 EV13=830
 for a in range(5):
-    for sh in range(3): hs.append(H("H13_History",a,3,2,sh,3,"quick",prefix=2,events=EV13))
+    for sh in range(3): hs.append(H("H13_History",a,3,2,sh,3,"both",prefix=2,events=EV13))
 for a in range(5):
-    for sh in range(5): hs.append(H("H13_History",a,4,2,sh,5,"thorough",prefix=2))
-for a in range(5):
-    for sh in range(2): hs.append(H("H13_History",a,4,2,sh,2,"thorough",prefix=0))
+    for sh in range(5): hs.append(H("H13_History",a,4,2,sh,5,"thorough",prefix=2,events=EV13))
 for sh in range(3): hs.append(H("H13_History",5,3,2,sh,3,"thorough",prefix=2,events=EV13))
 c['harnesses']=hs
 json.dump(c,open('/verif/checks/C13.json','w'),indent=1)
@@ -44,7 +46,7 @@ c=json.load(open('/verif/checks/C18.json'))
 hs=[h for h in c['harnesses'] if h['name']!='H18_History']
 EV18=sum(1<<i for i in (0,1,2,3,4,6,7,9))
 for sh in range(3):
-    h=H("H18_History",1,3,2,sh,3,"quick",events=EV18); h['env']['mult']="2"; hs.append(h)
+    h=H("H18_History",1,3,2,sh,3,"both",events=EV18); h['env']['mult']="2"; hs.append(h)
 for sh in range(8):
     h=H("H18_History",1,4,2,sh,8,"thorough",events=EV18); h['env']['mult']="2"; hs.append(h)
 c['harnesses']=hs
